@@ -5,7 +5,7 @@
    accepted; recorded as fixed in known_findings.json). Known class outside these theorems (genuine defect, see
    known_findings.json): max_concurrent_farms > 100 (the fetch is clamped to 100 entries, F-clamp). *)
 From MD.Model Require Import Base Ownable Epoch PoolMath Types PoolManager FarmManager Chain.
-From MD.Proofs Require Import ChainProofs AtomicProofs WeightProofs FarmProofs.
+From MD.Proofs Require Import ChainProofs AtomicProofs WeightProofs FarmProofs BankProofs TxFarm.
 
 (* creation: everything that is checked and recorded. The full reward is the farm's budget, nothing is claimed,
    emission rate = floor(reward / (end - start)), start/end within the allowed buffer, the creator is the owner,
@@ -97,9 +97,33 @@ Proof. exact close_farm_spec. Qed.
 Theorem C11_auto_close_refunds_owner : forall s fs, Forall sub_fm_ok (snd (close_farms s fs)).
 Proof. exact close_farms_ok. Qed.
 
+(* THE WHOLE TRANSACTION, every bank balance: expanding a farm moves exactly the attached coins from the sender to the farm
+   manager; no other balance changes *)
+Theorem C11_expansion_transaction_moves_exactly_the_attached_coins : forall w sender funds p w',
+  run_tx w sender FM (WFm (FmExpandFarm p)) funds = Ok w' ->
+  forall a d, bal (w_bank w') a d = bal (w_bank w) a d - ind (String.eqb a sender) (camt funds d) + ind (String.eqb a FM) (camt funds d).
+Proof. exact expand_farm_tx_balances. Qed.
+
+(* THE WHOLE TRANSACTION: closing a farm (by its owner or the contract owner) removes it and refunds exactly the unclaimed
+   remainder to the farm's owner and to nobody else; if that transfer fails the farm is closed all the same and no balance
+   changes at all (the failure affects nothing else) *)
+Theorem C11_closing_transaction_refunds_exactly_the_remainder_to_the_owner : forall w sender funds id w',
+  run_tx w sender FM (WFm (FmCloseFarm id)) funds = Ok w' ->
+  exists f, sfind f_id id (fm_farms (w_fm w)) = Some f /\ funds = [] /\
+    (f_owner f = sender \/ owner (fm_own (w_fm w)) = Some sender) /\
+    fm_farms (w_fm w') = sremove f_id (f_id f) (fm_farms (w_fm w)) /\
+    let rem := ssub (amount_of (f_asset f)) (f_claimed f) in
+    ((forall a d, bal (w_bank w') a d = bal (w_bank w) a d
+                   - ind (String.eqb a FM) (ind (String.eqb (denom_of (f_asset f)) d) rem)
+                   + ind (String.eqb a (f_owner f)) (ind (String.eqb (denom_of (f_asset f)) d) rem))
+     \/ (forall a d, bal (w_bank w') a d = bal (w_bank w) a d)).
+Proof. exact close_farm_tx_balances. Qed.
+
 Print Assumptions C11_create_farm.
 Print Assumptions C11_farm_epochs_within_buffer.
 Print Assumptions C11_creation_takes_reward_plus_fee.
 Print Assumptions C11_expand_farm.
 Print Assumptions C11_close_farm.
 Print Assumptions C11_auto_close_refunds_owner.
+Print Assumptions C11_expansion_transaction_moves_exactly_the_attached_coins.
+Print Assumptions C11_closing_transaction_refunds_exactly_the_remainder_to_the_owner.
